@@ -268,6 +268,7 @@ def step (d : DSt) (toks : List String) : DSt × String :=
       | "thr" => some { c with threshold := intD v }
       | "tmo" => some { c with timeout := intD v }
       | "agents" => some c
+      | "silent" => some c      -- console output on / off: no modelled behaviour depends on it
       | _ => none
     match c' with
     | some c' => ({ d with cfg := c' }, "- ; " ++ showStatsD d ++ " ## set:" ++ k)
